@@ -10,7 +10,7 @@ CLAUSES = {"C16": {"zero_not_representable", "product_not_representable", "wrong
 
 def opclass(o):
   if o["src"] in ("po2", "relu_po2"):
-    return o["src"] + ("(max_value<=1)" if o["hasmv"] and o["mvk"] <= 0 else "(max_value>1)" if o["hasmv"] else "")
+    return o["src"] + ("(max_value<=1)" if o["hasmv"] and o["mvm"] * 2.0 ** o["mvk"] <= 1 else "(max_value>1)" if o["hasmv"] else "")
   if o["src"] == "relu" and o["bits"] == 1 and o["int"] == 1:
     return "relu(1,1)"
   return o["src"] + ("-unsigned" if o["src"] == "bits" and not o["kn"] else "")
